@@ -49,6 +49,7 @@ using namespace drv;
 
 static Report *R;
 static uint64_t SEED;
+static bool DUP = false;     // --dup: this run repeats cases of another run of the tier (other flavour): not counted as distinct
 static int MAXDEPTH = 2;   // --maxdepth 1: single cuts only (ASan pass of the thorough tier)
 
 // ------------------------------------------------------------------------------------------------ utilities
@@ -444,7 +445,7 @@ template<class AIO> static void frag_case(const std::string &cid, const Mode &m,
 		for (size_t k = 0; k < w.msg.size(); k++) if (cuts[c] == w.msg[k].end) boundary = true;
 		if (!boundary) nontriv = true;
 	}
-	R->ok(nontriv);
+	R->ok(nontriv && !DUP);
 	const std::string kbase = std::string("/") + Tr<AIO>::name() + "/" + m.name;
 	// oracle
 	for (size_t i = 0; i < rx.got.size() && i < ex.size(); i++)
@@ -742,6 +743,7 @@ template<class AIO> static void fault_cell(const Cell &C, const Mode &m, size_t 
 		}
 		TOTAL_TRANS += (style == 0 ? 1 : style == 1 ? 2 : len);
 		{ Hs h; h.s(mu.bytes), h.u(style); R->ok(distinct.insert(h.fin()).second && mu.bytes != w.bytes); }
+		if (mu.whole) R->counters["fault_runs_whole_message_fault"]++;
 		(rx.got.empty() ? delivered_none : rx.got.size() == vals.size() ? delivered_all : delivered_some)++;
 		if (!m.auth) continue;   // unauthenticated: surviving the input is all that is required
 		std::string kind;
@@ -880,6 +882,7 @@ int main(int argc, char **argv)
 	bool thorough = (A.tier == "thorough");
 	if (A.has("depth1")) thorough = false;   // re-run the quick bounds inside the thorough tier
 	MAXDEPTH = (int)A.geti("maxdepth", 2);
+	DUP = A.has("dup");
 	std::string part = A.get("part", "all");
 	const size_t NS = sizeof(MODES_SELECT) / sizeof(Mode), NN = sizeof(MODES_NONBLOCK) / sizeof(Mode);
 	if (part == "frag" || part == "all") add_frag_cells<aiounicast_select>(MODES_SELECT, NS, thorough), add_frag_cells<aiounicast_nonblock>(MODES_NONBLOCK, NN, thorough);
